@@ -58,7 +58,7 @@ func zzStubZstdNewReader(r io.Reader, opts ...zstd.DOption) (*zstd.Decoder, erro
 func zzStubZstdRead(d *zstd.Decoder, p []byte) (int, error) { return zzContractRead(p) }
 func zzStubZstdClose(d *zstd.Decoder)                       {}
 
-//verif:harness C21 decompress_cert_contract unwind=400 paths=100000
+//verif:harness C21 decompress_cert_contract unwind=400 paths=400000 wall=3000
 //verif:stub (*utls.Conn).sendAlert zzStubSendAlert
 //verif:stub github.com/andybalholm/brotli.NewReader zzStubBrotliNewReader
 //verif:stub (*github.com/andybalholm/brotli.Reader).Read zzStubBrotliRead
@@ -68,31 +68,43 @@ func zzStubZstdClose(d *zstd.Decoder)                       {}
 //verif:stub (*github.com/klauspost/compress/zstd.Decoder).Close zzStubZstdClose
 //verif:expect recovered aborted
 //verif:assume the brotli/zlib/zstd decoders are replaced by an arbitrary io.Reader obeying the io.Reader contract over the decompressed content (the decoders themselves are not encoded)
-//verif:doc decompressCert with: advertised algorithms any subset of {brotli, zlib, zstd}; server algorithm an arbitrary 16-bit value; a valid 4-byte certificate message as content, possibly followed by 1..2 extra bytes or truncated by 1..2 bytes; declared length 4; every chunking the io.Reader contract allows. Success => the algorithm was advertised, the decompressed content has exactly the declared length and the returned message is typeCertificate||uint24(len)||content; a length mismatch (shorter or longer) or an unadvertised algorithm => error and a bad_certificate alert.
+//verif:doc decompressCert with: advertised algorithms any subset of {brotli, zlib, zstd}; server algorithm an arbitrary 16-bit value; a valid certificate message as content (4 bytes: empty list; thorough tier also a list with one certificate of 1..2 arbitrary bytes, 10..11 bytes), possibly followed by 1..2 extra bytes or truncated by 1..2 bytes; declared length = the valid message's length; every chunking the io.Reader contract allows. Success => the algorithm was advertised, the decompressed content has exactly the declared length and the returned message is typeCertificate||uint24(len)||content; a length mismatch (shorter or longer) or an unadvertised algorithm => error and a bad_certificate alert.
 func zzC21DecompressCertContract() {
 	zzAlerts = nil
 	c := &Conn{config: &Config{}}
 	uc := &UConn{Conn: c}
-	if verifBool("adv-brotli") {
-		uc.certCompressionAlgs = append(uc.certCompressionAlgs, CertCompressionBrotli)
-	}
-	if verifBool("adv-zlib") {
-		uc.certCompressionAlgs = append(uc.certCompressionAlgs, CertCompressionZlib)
-	}
-	if verifBool("adv-zstd") {
-		uc.certCompressionAlgs = append(uc.certCompressionAlgs, CertCompressionZstd)
+	oneCert := verifThorough() && verifBool("one-certificate")
+	if oneCert {
+		// the longer message is explored with all three algorithms advertised
+		uc.certCompressionAlgs = []CertCompressionAlgo{CertCompressionBrotli, CertCompressionZlib, CertCompressionZstd}
+	} else {
+		if verifBool("adv-brotli") {
+			uc.certCompressionAlgs = append(uc.certCompressionAlgs, CertCompressionBrotli)
+		}
+		if verifBool("adv-zlib") {
+			uc.certCompressionAlgs = append(uc.certCompressionAlgs, CertCompressionZlib)
+		}
+		if verifBool("adv-zstd") {
+			uc.certCompressionAlgs = append(uc.certCompressionAlgs, CertCompressionZstd)
+		}
 	}
 	alg := verifU16("server-alg")
 	valid := []byte{0, 0, 0, 0} // empty request context, empty certificate_list
-	actual := 2 + verifChoice("actual-len", 5) // 2..6
+	if oneCert {
+		// a certificate_list with one entry of 1..2 arbitrary bytes and no extensions
+		cert := verifBytes("cert", 1+verifChoice("cert-len", 2))
+		valid = zzCat([]byte{0}, zzVec24(zzCat(zzVec24(cert), []byte{0, 0})))
+	}
+	declared := len(valid)
+	actual := declared - 2 + verifChoice("actual-len", 5) // declared-2 .. declared+2
 	content := make([]byte, actual)
 	copy(content, valid)
-	for i := 4; i < actual; i++ {
+	for i := declared; i < actual; i++ {
 		content[i] = verifU8("extra")
 	}
 	zzDecompContent, zzDecompPos, zzDecompReads, zzZlibHeaderErr = content, 0, 0, false
 	hs := &clientHandshakeStateTLS13{c: c, uconn: uc}
-	m := utlsCompressedCertificateMsg{algorithm: alg, uncompressedLength: 4, compressedCertificateMessage: []byte{1, 2, 3}}
+	m := utlsCompressedCertificateMsg{algorithm: alg, uncompressedLength: uint32(declared), compressedCertificateMessage: []byte{1, 2, 3}}
 	msg, err := hs.decompressCert(m)
 	advertised := false
 	for _, a := range uc.certCompressionAlgs {
@@ -101,7 +113,7 @@ func zzC21DecompressCertContract() {
 	if err == nil {
 		verifReach("recovered")
 		verifAssert(advertised, "algorithm-was-advertised")
-		verifAssertClass(actual == 4, "accepts-only-exact-declared-length", "longer-content-accepted")
+		verifAssertClass(actual == declared, "accepts-only-exact-declared-length", "longer-content-accepted")
 		verifAssert(msg != nil, "message-returned")
 		if msg != nil {
 			raw, merr := msg.marshal()
@@ -110,7 +122,7 @@ func zzC21DecompressCertContract() {
 	} else {
 		verifReach("aborted")
 		verifAssert(len(zzAlerts) > 0 && zzAlerts[0] == alertBadCertificate, "bad-certificate-alert")
-		if advertised && actual == 4 && (alg == 1 || alg == 2 || alg == 3) && !zzZlibHeaderErr {
+		if advertised && actual == declared && (alg == 1 || alg == 2 || alg == 3) && !zzZlibHeaderErr {
 			// a valid encoding of the right length must be recovered whatever the chunking
 			verifAssertClass(false, "valid-stream-recovered-for-every-chunking", "single-read")
 		}
